@@ -289,11 +289,66 @@ done:
     free(sorted.a);
 }
 
+/* |S| beyond what can be materialised: a canonical compact set G (a few cells of mixed coarse resolutions, pentagons included,
+ * no ancestor pairs, no complete sibling group) is the compaction of S = all descendants of G at resolution r, so the statement's
+ * "uncompactCellsSize equal to |S|" is checkable for |S| up to 7^15 against the closed-form child counts (128-bit arithmetic),
+ * and uncompactCells with a capacity that cannot hold S must answer E_MEMORY_BOUNDS without touching more than it was given. */
+static void case_deep_size(uint64_t seed) {
+    vf_rng r;
+    vf_rng_seed(&r, seed);
+    vf_case("deep %016" PRIx64, seed);
+    int n = 1 + (int)vf_below(&r, 6);
+    H3Index g[8];
+    int m = 0, finest = 0;
+    for (int i = 0; i < n; i++) {
+        int res = (int)vf_below(&r, 8);
+        H3Index c = vf_below(&r, 3) ? vf_rand_cell(&r, res) : vf_make_cell(res, REF_PENT_BC[vf_below(&r, 12)], (int[15]){0});
+        int ok = 1;
+        for (int j = 0; j < m && ok; j++) { /* keep the set canonical: no ancestor/descendant pairs, no equal cells */
+            int rj = VF_RES(g[j]), lo = rj < res ? rj : res;
+            if (ref_parent(g[j], lo) == ref_parent(c, lo)) ok = 0;
+        }
+        if (!ok) continue;
+        g[m++] = c;
+        if (res > finest) finest = res;
+    }
+    /* a complete sibling group cannot arise: at most 6 cells, and 7 (or 6 under a pentagon: then all six must be siblings, which
+     * the ancestor test does not exclude) — drop the last cell if all remaining cells share one parent */
+    if (m >= 6) m = 5;
+    if (!m) return;
+    for (int target = finest; target <= 15; target++) {
+        u128 want = 0;
+        for (int j = 0; j < m; j++) want += (u128)ref_children_count(g[j], target);
+        int64_t got = -1;
+        H3Index *cin = vf_buf_new((size_t)m * 8, 0);
+        memcpy(cin, g, (size_t)m * 8);
+        H3Error e = uncompactCellsSize(cin, m, target, &got);
+        vf_add("deepsize.calls", 1);
+        if (e || (u128)got != want)
+            vf_violation("size", "uncompactCellsSize", seed ^ (uint64_t)target, "", "%d canonical cells (first %016" PRIx64 ", finest res %d) at target res %d: rc=%u size=%" PRId64 ", the descendants number %" PRId64, m, g[0], finest,
+                         target, e, got, (int64_t)want);
+        if (want > 4096) {
+            /* capacity far too small for |S|: must be refused, nothing written beyond the capacity */
+            int64_t cap = (int64_t)vf_below(&r, 64);
+            H3Index *out = vf_buf_new((size_t)cap * 8, 0);
+            e = uncompactCells(cin, m, out, cap, target);
+            if (e != E_MEMORY_BOUNDS) vf_violation("wrong-code", "uncompactCells", seed ^ 0x91 ^ (uint64_t)target, "", "capacity %" PRId64 " for %" PRId64 " descendants: rc=%u expected E_MEMORY_BOUNDS(14)", cap, (int64_t)want, e);
+            if (vf_buf_check(out)) vf_violation("overrun", "uncompactCells", seed ^ 0x92, "", "wrote beyond a capacity of %" PRId64, cap);
+            vf_buf_free(out);
+            vf_add("deepsize.short_capacity", 1);
+        }
+        vf_buf_free(cin);
+    }
+    vf_distinct(seed);
+}
+
 static void run(void) {
     vf_rng r;
     vf_rng_stream(&r, 6);
     int n = VF_T(1200, 12000);
     for (int i = 0; i < n; i++) case_set(vf_u64(&r));
+    int nd = VF_T(800, 8000);
+    for (int i = 0; i < nd; i++) case_deep_size(vf_u64(&r));
     /* very large sets: whole base cells at res 5-6 and large disks (up to ~1e5 cells) */
     int nbig = VF_T(1, 6);
     for (int i = 0; i < nbig; i++) case_set(0xB16000000ULL + (uint64_t)VF.shard * 100 + (uint64_t)i + VF.seed * 100000);
@@ -302,6 +357,8 @@ static void replay(const char *spec) {
     uint64_t seed;
     if (sscanf(spec, "set %" SCNx64, &seed) == 1)
         case_set(seed);
+    else if (sscanf(spec, "deep %" SCNx64, &seed) == 1)
+        case_deep_size(seed);
     else
         vf_fatal("bad replay spec: %s", spec);
 }
